@@ -340,6 +340,20 @@ class Interp:
             args = [self.expr(a, scopes, outer, me) for a in e[3]]
             if ob is NIL:
                 raise Fail("lookup", "nil object")
+            if isinstance(ob, ListRef) and e[2] in ("map", "filter"):
+                # xs.map(f): a NEW list of the VALUES f returns, element by element in order; xs.filter(f): a new list of the elements
+                # f accepts; the receiver is unchanged
+                res = []
+                for el in list(ob.items):
+                    r = self.call(args[0], [el])
+                    if e[2] == "map":
+                        res.append(r)
+                    else:
+                        if not is_bool(r):
+                            raise Unsupported("filter callback result")
+                        if o.branch(r):
+                            res.append(el)
+                return ListRef(res)
             if isinstance(ob, ListRef) and e[2] in LIST_BUILTINS:
                 return list_builtin(o, e[2], ob, args)
             if isinstance(ob, MapRef) and e[2] in MAP_BUILTINS:
